@@ -267,7 +267,7 @@ def run(rep):
                         max_walks_per_cfg=None if thorough else 24)
     T("replay")
     ok = [c for c in cfgs if mh.vcomp._key(c) in okset]
-    traces = record_traces(COMP, ok, 5 if thorough else 1, 600 if thorough else 200, rep.seed, rep)
+    traces = record_traces(COMP, ok, 2 if thorough else 1, 300 if thorough else 200, rep.seed, rep)
     for k, v in trace_stats(COMP, traces).items():
         rep.add("impl_" + k, v)
     T("record")
